@@ -78,6 +78,7 @@ type c19Op struct {
 type c19Case struct {
 	lvl    int
 	dyn    bool // HandlerOptions.Level is a *slog.LevelVar (initialised to lvl), not the constant lvl
+	src    bool // HandlerOptions.AddSource, and every record carries a program counter (suffix "s")
 	attrs  []c19Attr
 	recs   []c19Rec
 	script []c19Op
@@ -109,11 +110,13 @@ func c19Parse(line string) (c *c19Case) {
 	if len(f) < 5 || f[0] != "C19.tree" {
 		panic("bad C19.tree case")
 	}
-	if strings.HasPrefix(f[1], "v") {
-		c = &c19Case{lvl: atoi(f[1][1:]), dyn: true}
+	lvlTok, src := strings.CutSuffix(f[1], "s")
+	if strings.HasPrefix(lvlTok, "v") {
+		c = &c19Case{lvl: atoi(lvlTok[1:]), dyn: true}
 	} else {
-		c = &c19Case{lvl: atoi(f[1])}
+		c = &c19Case{lvl: atoi(lvlTok)}
 	}
+	c.src = src
 	if f[2] != "-" {
 		for _, a := range strings.Split(f[2], ",") {
 			p := strings.SplitN(a, ":", 3)
@@ -235,10 +238,26 @@ func (r *c19Rec) allIDs() (ids []int) {
 
 // refLine is the reference of the property: what slog.TextHandler prints for a fresh record
 // with the given level/time/message and exactly these attributes.
+// c19PC is the program counter the records of "s" cases carry: a fixed call site in this file, so
+// that the source=file:line text is the same in every build of the harness.
+func c19PC() uintptr {
+	var pcs [1]uintptr
+	runtime.Callers(1, pcs[:])
+	return pcs[0]
+}
+
 func c19RefLine(hlvl int, level int, t time.Time, msg string, attrs []slog.Attr) []byte {
+	return c19RefLineSrc(false, hlvl, level, t, msg, attrs)
+}
+
+func c19RefLineSrc(src bool, hlvl int, level int, t time.Time, msg string, attrs []slog.Attr) []byte {
 	var buf bytes.Buffer
-	th := slog.NewTextHandler(&buf, &slog.HandlerOptions{Level: slog.Level(hlvl)})
-	r := slog.NewRecord(t, slog.Level(level), msg, 0)
+	th := slog.NewTextHandler(&buf, &slog.HandlerOptions{Level: slog.Level(hlvl), AddSource: src})
+	var pc uintptr
+	if src {
+		pc = c19PC()
+	}
+	r := slog.NewRecord(t, slog.Level(level), msg, pc)
 	r.AddAttrs(attrs...)
 	if err := th.Handle(context.Background(), r); err != nil {
 		panic(err)
@@ -276,7 +295,7 @@ func (c *c19Case) refFor(rid int, path []int) (key string, line []byte) {
 	if len(ks) > 0 {
 		k = strings.Join(ks, ".")
 	}
-	return fmt.Sprintf("%d;%s", rid, k), c19RefLine(c.lvl, r.level, r.time(), string(r.msg), as)
+	return fmt.Sprintf("%d;%s", rid, k), c19RefLineSrc(c.src, c.lvl, r.level, r.time(), string(r.msg), as)
 }
 
 // line renders the case with a fresh oracle.
@@ -332,6 +351,9 @@ func (c *c19Case) line() string {
 	lvl := strconv.Itoa(c.lvl)
 	if c.dyn {
 		lvl = "v" + lvl
+	}
+	if c.src {
+		lvl += "s"
 	}
 	return fmt.Sprintf("C19.tree %s %s %s %s %s", lvl, j(as), j(rs), j(ops), j(orc))
 }
@@ -428,14 +450,18 @@ func evalC19Tree(line string) Result {
 	}
 	cur, sets, dynEnabled := c.lvl, 0, false
 	notFrozen, notCurrent := "", "" // the first Enabled call that does not fit the reading
-	root := slogutil.NewJSONHybridHandler(w, &slog.HandlerOptions{Level: leveler})
+	root := slogutil.NewJSONHybridHandler(w, &slog.HandlerOptions{Level: leveler, AddSource: c.src})
 	nodes := []slog.Handler{root}
 	paths := [][]int{nil}
 	recs := make([]slog.Record, len(c.recs))
 	maxBack, spare := 0, false
 	for i := range c.recs {
 		r := &c.recs[i]
-		recs[i] = slog.NewRecord(r.time(), slog.Level(r.level), string(r.msg), 0)
+		var pc uintptr
+		if c.src {
+			pc = c19PC()
+		}
+		recs[i] = slog.NewRecord(r.time(), slog.Level(r.level), string(r.msg), pc)
 		for _, ch := range r.chunks {
 			var as []slog.Attr
 			for _, id := range ch {
@@ -926,7 +952,7 @@ func c19GenTree(rng *rand.Rand) string {
 	setLevels := []int{-8, -5, -4, -3, -1, 0, 1, 3, 4, 5, 7, 8, 9, 12}
 	// about half of the trees hang off a *slog.LevelVar; cur is the level the tree is configured
 	// with at this point of the script, prev the one before the last Set
-	c := &c19Case{lvl: pick(rng, levels...), dyn: rng.IntN(2) == 0}
+	c := &c19Case{lvl: pick(rng, levels...), dyn: rng.IntN(2) == 0, src: rng.IntN(5) == 0}
 	c19HotKey = nil
 	if t, ok := dictTok(rng); ok && rng.IntN(3) == 0 {
 		c19HotKey = []byte(t)
@@ -1111,7 +1137,7 @@ func genC19(rng *rand.Rand, tier string) (cases []string) {
 // --- shrinker ------------------------------------------------------------------------
 
 func (c *c19Case) clone() *c19Case {
-	d := &c19Case{lvl: c.lvl, dyn: c.dyn}
+	d := &c19Case{lvl: c.lvl, dyn: c.dyn, src: c.src}
 	d.attrs = append(d.attrs, c.attrs...)
 	for _, r := range c.recs {
 		r2 := r
